@@ -2,7 +2,7 @@
    This file: the accrual mathematics (Bank::accrue_interest + calc_interest_rate_accrual_state_changes).
    "Applied first in every handler" is a handler-level fact: see the handler model and the level-C
    freshness correspondence in the evidence of this property. *)
-Require Import Base Constants Fixed Curve Bank FixedLemmas BankLemmas CurveLemmas AccrualLemmas.
+Require Import Base Constants Fixed Curve Bank FixedLemmas BankLemmas CurveLemmas AccrualLemmas AccrualUpper.
 Require Import Risk TransferFee Handlers SolvencyWorld HandlerWorld FreshnessHandlers.
 Local Open Scope Z_scope.
 
@@ -33,8 +33,24 @@ Theorem C06_credit_le_charge_partial :
   exists irl, 0 <= irl /\ ((b' = b /\ irl = 0) \/ b_asv b' = b_asv b * (ONE + irl) / ONE \/ (b_asv b' = b_asv b /\ irl = 0)) /\
   (Dv b' - Dv b) + (Fv b' - Fv b) * ONE <= (Lv b' - Lv b) + (b_tls b * b_lsv b / ONE + b_tls b + irl + 1).
 Proof. exact accrue_credit_le_charge. Qed.
-(* `_partial`: the opposite direction (borrowers are not over-charged beyond a similar allowance)
-   is evaluated by the oracle on the implementation but not proved here. *)
+(* (the name keeps its historical `_partial` suffix: the opposite direction is the next theorem, so the
+   conservation clause is now proved two-sided.) *)
+
+(* conservation, opposite direction: borrowers are never charged more than what is credited to depositors and
+   the three fee buckets, beyond an explicit allowance.  Stated multiplied by YEAR * ONE so that no division
+   appears: allowance = (dt / YEAR) * (3 L + bor + 3 + A * (base / ONE + 1) + 3 ONE) + A + total_asset_shares + 3 ONE
+   raw units at scale 2^96, where A / L are the asset / liability amounts in I80F48 bits, base / bor the base and
+   borrow rates of the period (base is bounded by the curve's 100 %-utilisation rate).  For a bank with 10^16 native
+   units on both sides at a 100 % base rate that is below 10^-3 native units per year of accrual. *)
+Theorem C06_charge_le_credit :
+  forall b pf now b', wf_bank b -> valid_curve b -> accrue_interest b pf now = Ok b' ->
+  exists base bor A L dt, 0 <= base <= Rf (ir_hundred (b_ir b)) /\ 0 <= bor /\
+    A = b_tas b * b_asv b / ONE /\ L = b_tls b * b_lsv b / ONE /\ dt = now - b_last_update b /\ 0 <= dt /\
+    (b_last_update b < now -> A <> 0 -> L <> 0 ->
+       exists ur r, calc_interest_rate (b_ir b) pf ur = Ok r /\ r_base r = base /\ r_borrowing r = bor) /\
+    ((Lv b' - Lv b) - (Dv b' - Dv b) - (Fv b' - Fv b) * ONE) * YEAR * ONE
+    <= dt * (ONE * (3 * L + bor + 3) + A * (base + ONE) + 3 * ONE * ONE) + (A + b_tas b + 3 * ONE) * YEAR * ONE.
+Proof. exact accrue_charge_le_credit. Qed.
 
 Definition ex_bank : bank :=
   mkBank ONE ONE (1000000 * ONE) (500000 * ONE) 0 0 0 1000 U64_MAX U64_MAX 0 6 0 0 0 0 0 1
@@ -48,6 +64,7 @@ Proof. vm_compute. eexists; split; [reflexivity|]. repeat split; reflexivity. Qe
 Print Assumptions C06_monotone_nonneg_fees_program_fee_off.
 Print Assumptions C06_idempotent.
 Print Assumptions C06_credit_le_charge_partial.
+Print Assumptions C06_charge_le_credit.
 
 (* ---- "every deposit, withdrawal, borrow, repayment, liquidation, bankruptcy settlement and balance closure first
    brings the interest of each bank it transacts in up to the current time" — at instruction level (Handlers.v).
